@@ -86,6 +86,21 @@ Definition cat_bad (cs : list (list (string * string) * string)) : list (N * N) 
                       let e := mkEntry 0%Z [] None (unhex_fields fs) in
                       if beqb (render_cat e) (unhex impl) then [] else [(i, 1)]) (index_from 0 cs).
 
+(* whole cat run over a journal given by (receive time, MESSAGE value | none): entries
+   without MESSAGE print nothing and the enumeration continues (cat_without_message).
+   case = (A, B, stdout of the binary) *)
+Definition mk_cat_journal (es : list (Z * option string)) : journal :=
+  map (fun tm => mkEntry (fst tm) [] None
+                   (match snd tm with
+                    | Some m => [(s2b "PRIORITY", [54]); (k_message, unhex m)]
+                    | None => [(s2b "PRIORITY", [54]); (s2b "MESSAGX", [120])]
+                    end)) es.
+Definition cat_run_bad (es : list (Z * option string)) (cs : list (option Z * option Z * string)) : list (N * N) :=
+  let j := mk_cat_journal es in
+  flat_map (fun ic => let '(i, (A, B, impl)) := ic in
+                      if beqb (journal_stdout ref_seek_head ref_seek_realtime stop_after RCat A B j) (unhex impl)
+                      then [] else [(i, 1)]) (index_from 0 cs).
+
 (* ---- parser twin: case = (stream, result of the python twin: Some entries | None = malformed) *)
 Definition parse_bad (cs : list (string * option (list (list (string * string))))) : list (N * N) :=
   flat_map (fun ic => let '(i, (s, exp)) := ic in
